@@ -164,7 +164,7 @@ struct SimRun {
 };
 
 template <class F>
-SimRun sim_session(const Json& faults, uint64_t max_yields, F f) {
+SimRun sim_session(const Json& faults, uint64_t max_yields, F f, long stdio_bufsize = 0) {
   using sim::g;
   static sigjmp_buf jb;
   g.reset();
@@ -175,6 +175,7 @@ SimRun sim_session(const Json& faults, uint64_t max_yields, F f) {
   if (g.max_allocs > 1000000) g.max_allocs = 1000000;   // reader sessions are small: a few thousand allocations
   if (g.cpu_budget_s > 6.0) g.cpu_budget_s = 6.0;       // and take microseconds to milliseconds of CPU
   for (auto& fj : faults.arr()) g.faults.push_back(sim::FaultOp::from_json(fj));
+  if (stdio_bufsize > 0) g.stdio_bufsize = stdio_bufsize;     // tuning knob: small buffers make a small file leave in many flushes
   g.exit_jmp = &jb;
   g.begin();
   if (sigsetjmp(jb, 1) == 0) {
